@@ -158,7 +158,7 @@ def run(tier, seed):
         c.cov["stages"]["MC:client-proposed-fixes"]["holds_without_excuse"] = rf.violated is None
     s1, b1 = _cases(g1)
     s2, b2 = _cases(g2)
-    n1 = 1500 if quick else 20000
+    n1 = 1000 if quick else 20000
     acc1 = [x for x in s1 if x["cls"][0] == "accept"]
     rej1 = [x for x in s1 if x["cls"][0] != "accept"]
     acc1 = acc1 if len(acc1) <= n1 else rnd.sample(acc1, n1)
@@ -176,7 +176,7 @@ def run(tier, seed):
         y["attempts"].append(a)
         y["cls"] = y["cls"] + ["retry"]
         retry.append(y)
-    n2 = 1500 if quick else 20000
+    n2 = 1000 if quick else 20000
     s2sel = s2 if len(s2) <= n2 else rnd.sample(s2, n2)
     sessions = acc1 + retry + s2sel
     c.cov["stages"]["MC:client-1-attempt"].update({"cases_total": len(s1), "damaged_case_lines": b1})
